@@ -214,7 +214,7 @@ def _pinv_param_atoms(fam, e):
                 inv_diag.add(f'{x[1]}#{x[2]}')
         elif tag in ('I', 'lazyI'):
             walk(x[1], True)
-        elif tag in ('T', 'neg', 'pos', 'red', 'mulk', 'kmul', 'divk'):
+        elif tag in ('T', 'neg', 'pos', 'red', 'mulk', 'kmul', 'divk', 'cmul', 'rcmul', 'cdiv'):
             walk(x[1], under)
         elif tag in ('@', '+', '-'):
             for c in x[1:]:
